@@ -21,6 +21,8 @@ def gen_diagram(rng, small=False):
     from geometer.base import Tensor
     nn = rng.randint(1, 3 if small else 5)
     free_shape = [rng.choice([2, 3]) for _ in range(rng.choice([0, 0, 1, 1, 2]))]
+    if rng.random() < 0.08:
+        free_shape = [2, 2, rng.choice([2, 3])]      # three collection axes, the leading two of equal length
     nodes = []
     for i in range(nn):
         tr = rng.choice([0, 1, 1, 2, 2, 2, 3, 3])
@@ -210,12 +212,12 @@ def tensor_ops(ctx, n):
 
 def eps_delta(ctx):
     from geometer.base import KroneckerDelta, LeviCivitaTensor
-    reqs = [("eps", n) for n in range(1, 6)]
+    reqs = [("eps", n) for n in range(1, 7)]          # size 6: the product of differences no longer fits into 8 bits
     dl = [(n, p) for n in range(1, 5) for p in range(1, n + 1)] + [(2, 3), (3, 4)]
     ctx.rng.shuffle(dl)
     reqs += [("delta", n, p) for n, p in dl]
     if ctx.tier == "thorough":
-        reqs.append(("eps", 6))
+        reqs.append(("delta", 5, 5))
     # ask everything twice and in a different order (caches), and after arithmetic on a result
     order = reqs + list(reversed(reqs))
     answers = dict(zip([" ".join(map(str, r)) for r in reqs], run_driver([" ".join(map(str, r)) for r in reqs])))
